@@ -107,7 +107,7 @@ def r62(db, ctx):
         if not ok_rs:
             probs.append('the output is not resized to rows.len() rows (of the same range passed to the kernel) before the call')
         # (c) early return
-        g1 = G.holds(rels, 'ge', lambda e: 'StripedSequence::len' in X.canon(e), lambda e: 'DenseMatrix::rows' in X.canon(e))
+        g1 = common.length_guard_strength(rels)[0] in ('exact', 'stronger')   # any guard implying len(seq) >= rows(pssm) is enough for memory safety
         g2 = any(r[0] == 'false' and 'is_empty' in X.canon(r[1]) for r in rels)
         if not (g1 and g2):
             probs.append('the call is not on the far side of the early return for len(seq) < rows(pssm) or empty rows')
@@ -517,6 +517,173 @@ def r67(db, ctx):
         ctx.ok('R6.7', 'lightmotif', 'no get_unchecked / unchecked_* call in the core crate')
 
 
+def r68(db, ctx):
+    ctx.rule('R6.8', 'row budget: for every access through a row pointer the row reached — start row + (rows advanced per iteration x iteration index of each '
+                     'enclosing loop) + rows in the access offset — is at most rows(matrix) - 1, entailed (Fourier-Motzkin) by the loop ranges / guards, the '
+                     'dominating assertions, and the wrapper obligations R6.2 (wrap >= rows(pssm) - 1, output resized to rows.len()) and the row-range contract')
+    n = 0
+    for path in ALL_KERNELS:
+        f, E, err = K.evaluate(db, path)
+        if E is None:
+            continue
+        R = X.Rec(f)
+        for a in E.acc:
+            if a.kind not in ('load', 'store', 'gather') or not isinstance(a.ptr, Ptr):
+                continue
+            root, steps, off = root_of(E, a.ptr)
+            if root is None:
+                continue
+            cls = classify(root.base)
+            if cls[0] != 'ROW':
+                continue
+            M, row0 = cls[1], cls[2]
+            cM = X.canon(M)
+            e = root.elem or 1
+            rows_atom = X.canon(('call', 'lightmotif::dense::DenseMatrix::rows', (M,)))
+            hyps = [{rows_atom: 1}]
+            prem = []
+            rowlin = {}
+            bad = None
+
+            def is_stride_of_M(k):
+                return k.startswith('lightmotif::dense::DenseMatrix::stride(') and k[len('lightmotif::dense::DenseMatrix::stride('):-1] == cM
+
+            def add(d, k, v):
+                d[k] = d.get(k, 0) + v
+            # rows contributed by the access offset
+            for k, v in off.items():
+                if 'DenseMatrix::stride' in k:
+                    if not is_stride_of_M(k) or Fraction(v) % e != 0:
+                        bad = f'offset term {v}*{k[:60]} is not a whole number of rows of this matrix'
+                    else:
+                        add(rowlin, '', Fraction(v) / e)
+            # start row
+            r0 = norm(row0)
+            if r0 == ('k', 0):
+                pass
+            elif r0[0] == 'elem' and isinstance(r0[1], tuple) and r0[1][0] == 'iter' and norm(r0[1][1], True)[0] == 'p':
+                # a row of the caller's range: contract rows.end <= rows(seq) - wrap, and R6.2: wrap >= rows(pssm) - 1
+                ratom = X.canon(r0)
+                wrap_atom = 'WRAP(' + cM + ')'
+                add(rowlin, ratom, 1)
+                hyps.append({ratom: 1})
+                hyps.append({rows_atom: 1, wrap_atom: -1, ratom: -1, '': -1})       # r <= rows - wrap - 1
+                pssm_rows = None
+                for H_, L_ in E.loops.items():
+                    if L_.iter and L_.iter[0] == 'range' and common.is_call_to(L_.iter[2], 'DenseMatrix::rows') and norm(L_.iter[1]) == ('k', 0):
+                        pssm_rows = X.lin(L_.iter[2])
+                if pssm_rows is None:
+                    bad = 'reason=unrecognised-shape: no loop over the rows of the scoring matrix'
+                else:
+                    h = {wrap_atom: 1, '': 1}
+                    for k, v in pssm_rows.items():
+                        add(h, k, -v)
+                    hyps.append(h)                                                     # wrap >= M - 1
+                    prem += ['R6.2 wrap >= rows(pssm) - 1', 'row range within rows(seq) - wrap (R6.3 call sites / contract)']
+            else:
+                bad = f'reason=unrecognised-shape: start row {X.show(r0, 60)}'
+            # loops advancing the pointer
+            for H, l, st in steps:
+                if bad:
+                    break
+                ks = [k for k in st if k != '']
+                if len(ks) != 1 or not is_stride_of_M(ks[0]) or st.get('', 0) != 0 or Fraction(st[ks[0]]) % e != 0:
+                    bad = f'pointer step {X.lin_str(st)[:80]} is not a whole number of rows of this matrix'
+                    break
+                per = Fraction(st[ks[0]]) / e
+                L = E.loops[H]
+                if L.iter and L.iter[0] == 'range':
+                    it = f'it#{H}'
+                    add(rowlin, it, per)
+                    hyps.append({it: 1})
+                    h = {it: -1, '': -1}
+                    for k, v in X.lin(L.iter[2]).items():
+                        add(h, k, v)
+                    for k, v in X.lin(L.iter[1]).items():
+                        add(h, k, -v)
+                    hyps.append(h)                                                     # it <= hi - lo - 1
+                elif L.iter and L.iter[0] == 'iter' and norm(L.iter[1], True)[0] == 'p':
+                    pos = f'pos#{H}'
+                    len_atom = 'LEN(' + X.canon(norm(L.iter[1], True)) + ')'
+                    add(rowlin, pos, per)
+                    hyps.append({pos: 1})
+                    hyps.append({len_atom: 1, pos: -1, '': -1})                       # pos <= len - 1
+                    if 'matrix_mut' in cM or 'StripedScores' in cM:
+                        hyps.append({rows_atom: 1, len_atom: -1})                     # rows(out) >= rows.len()  (R6.2: resize dominates the call)
+                        prem.append('R6.2 output resized to rows.len()')
+                elif L.iter and L.iter[0] == 'iter' and m(('call~', 'Iterator::step_by', (('agg', '_', ('$lo', '$hi')), ('k', '$s'))), norm(L.iter[1])) is not None:
+                    # (lo..hi).step_by(s): iteration t yields lo + s*t < hi
+                    b_ = m(('call~', 'Iterator::step_by', (('agg', '_', ('$lo', '$hi')), ('k', '$s'))), norm(L.iter[1]))
+                    it = f'it#{H}'
+                    add(rowlin, it, per)
+                    hyps.append({it: 1})
+                    h = {it: -b_['$s'], '': -1}
+                    for k, v in X.lin(b_['$hi']).items():
+                        add(h, k, v)
+                    for k, v in X.lin(b_['$lo']).items():
+                        add(h, k, -v)
+                    hyps.append(h)                                                     # s*t <= hi - lo - 1
+                elif L.iter is None:
+                    cr = counter_relation(E, H)
+                    if len(cr) != 1:
+                        bad = 'reason=unrecognised-shape: pointer and counter are not in lock-step'
+                        break
+                    cl, cinit, cstep = cr[0]
+                    ratio = per / cstep
+                    catom = X.canon(('phi', H, cl))
+                    add(rowlin, catom, ratio)
+                    for k, v in X.lin(cinit).items():
+                        add(rowlin, k, -ratio * v)
+                    hyps.append({catom: 1})
+                    for cnd, truth in L.conds:
+                        hyps += guard_hyps(cnd, truth)
+                else:
+                    bad = f'reason=unrecognised-shape: loop {H} iterates over {L.iter}'
+            if bad:
+                ctx.fail('R6.8', f, f'{a.name} row budget', bad, span=a.span)
+                continue
+            # dominating assertions / guards at the access: equalities between linear forms, non-emptiness
+            def alias(d):
+                # rows(_N) where local N is (a borrow of) the very matrix this row pointer was derived from
+                import re as _re
+                o = {}
+                for k, v in d.items():
+                    mm = _re.fullmatch(r'lightmotif::dense::DenseMatrix::rows\(_(\d+)\)', k)
+                    if mm:
+                        ds = f.defs().get(int(mm.group(1)), [])
+                        if len(ds) == 1:
+                            bi_, si_, x_ = ds[0]
+                            try:
+                                de = norm(R.call(x_) if si_ == 'term' else R.rvalue(x_))
+                            except Exception:
+                                de = None
+                            if de is not None and X.canon(de) == cM:
+                                k = rows_atom
+                    o[k] = o.get(k, 0) + v
+                return o
+            for r in G.relations(f, R, a.block):
+                if r[0] == 'eq':
+                    la, lb = alias(X.lin(norm(r[1]))), alias(X.lin(norm(r[2])))
+                    hyps.append(LP.lin_sub(la, lb))
+                    hyps.append(LP.lin_sub(lb, la))
+                if (r[0] == 'false' and r[1][0] == 'call' and r[1][1].endswith('is_empty')) or (r[0] == 'ne' and common.is_call_to(r[1], 'DenseMatrix::rows') and norm(r[2]) == ('k', 0)):
+                    hyps.append({rows_atom: 1, '': -1})                                # rows >= 1 (R7.3: is_empty() = rows == 0)
+                    prem.append('non-empty guard')
+            hyps += ceil_div_facts(rowlin, hyps)
+            for k in list(rowlin) + [k for h in hyps for k in h]:
+                if k != '' and ('Div' in k or 'len' in k or 'phi' in k or k.startswith(('LEN(', 'WRAP('))):
+                    hyps.append({k: 1})
+            goal = LP.lin_sub({rows_atom: 1, '': -1}, rowlin)
+            if LP.entails(hyps, goal):
+                n += 1
+                ctx.ok('R6.8', f, f'{a.name}: row {X.lin_str(rowlin)[:60] or "0"} <= rows - 1', prem or ['loop range'])
+            else:
+                ctx.fail('R6.8', f, f'{a.name} may leave the matrix',
+                         f'{a.kind} through a row pointer reaches row {X.lin_str(rowlin)[:100] or "0"} of {X.show(M, 50)}; row <= rows - 1 is not entailed by the loop '
+                         f'range / guards (an iteration touches a row past the last one)', span=a.span)
+    ctx.floor('R6.8', n, 40, 'row-pointer accesses with a proved row budget')
+
+
 def run(db, ctx):
     r61(db, ctx)
     r62(db, ctx)
@@ -525,3 +692,4 @@ def run(db, ctx):
     r65(db, ctx)
     r66(db, ctx)
     r67(db, ctx)
+    r68(db, ctx)
